@@ -18,6 +18,7 @@ package gosym
 import (
 	"fmt"
 	"os"
+	"sort"
 
 	"verif/engine/sym"
 )
@@ -143,6 +144,34 @@ func registerWasm(m *Machine) {
 			return c.Const(64, 0)
 		}
 		return Tuple{Str{S: hc.Name}, arg(0), arg(1)}
+	}
+	// vfWasmExports(h) []string: exported functions sorted by name, each as "name:params:results" with
+	// one letter per value type (i I f F)
+	I["vf:vfWasmExports"] = func(m *Machine, fr *frame, a []Value) Value {
+		in := m.wasmInstOf(a[0])
+		out := []Value{}
+		var sigs []string
+		tyc := map[byte]byte{0x7F: 'i', 0x7E: 'I', 0x7D: 'f', 0x7C: 'F'}
+		for _, e := range in.mod.Exports {
+			if e.Kind != 0 {
+				continue
+			}
+			ft := in.funcType(e.Idx)
+			sig := e.Name + ":"
+			for _, t := range ft.Params {
+				sig += string(tyc[t])
+			}
+			sig += ":"
+			for _, t := range ft.Results {
+				sig += string(tyc[t])
+			}
+			sigs = append(sigs, sig)
+		}
+		sort.Strings(sigs)
+		for _, sg := range sigs {
+			out = append(out, Str{S: sg})
+		}
+		return out
 	}
 	I["vf:vfWasmExitCode"] = func(m *Machine, fr *frame, a []Value) Value {
 		in := m.wasmInstOf(a[0])
